@@ -310,6 +310,10 @@ func (w *repoWorld) apply(o repoOp) string {
 			release = w.origin.Hold(fmt.Sprintf("/loc%d", o.CDP))
 		}
 		st, err := chk.IsRevoked(cert, chains)
+		heldSnap := ""
+		if before && w.cfg.Fetch == "background" {
+			heldSnap = w.snapshot() // the spawned load of this location is still waiting at the origin
+		}
 		release()
 		status := "notRevoked"
 		if err != nil {
@@ -325,9 +329,14 @@ func (w *repoWorld) apply(o repoOp) string {
 			}
 		}
 		snap := w.snapshot0(spawn)
-		if !spawn && status != "notRevoked" {
+		if status != "notRevoked" {
 			// map order: a closed entry and an open one that lists the certificate -> error or revoked, whichever comes first
-			if es, ok := parseRepoSnapshot(snap); ok {
+			// (also when this handshake has just added its location: after a restart the entry is loaded from the work directory)
+			look := snap
+			if spawn {
+				look = heldSnap
+			}
+			if es, ok := parseRepoSnapshot(look); ok {
 				hasClosed, isListed := false, false
 				for loc, e := range es {
 					if e.closed {
